@@ -748,3 +748,57 @@ def run_store_growth_sites(repo, task):
     if n < 10:
         rep['detail'] = f'only {n} block-store growth / raw-constructor sites found: the generator no longer matches the source layout'
     return rep
+
+
+def run_length_cache_sites(repo, task):
+    """C02 / C05 / C09 site obligations read off the AST (G15): an IndexLevel caches its leaf count (`_length`); growth makes the count of EVERY level on the path from
+    the root to the new leaf stale.  In IndexLevelGO.append: every node visited by the descent loop is recorded (`edge_nodes[depth] = node`, unconditionally, before the
+    descent step), and the method ends with a loop over ALL of `edge_nodes` that resets `node._length = None`; IndexLevelGO.extend ends by resetting `self._length`.
+    (Two independent seeded changes narrowed this reset to 'the levels that grew'.)"""
+    import ast
+    t0 = time.time()
+    items, failures = [], []
+
+    def ob(name, ok, note, fn, undecided=False):
+        v = 'proved' if ok else ('undecided' if undecided else 'refuted')
+        items.append(dict(name=name, fn=fn, kind='G15', verdict=v, backend='ast', ms=0.0, note=note))
+        if v == 'refuted':
+            failures.append(dict(key=f'G:{name}', what=f'{name}: {note}', nofail=True, replay=dict(site=name, note=note)))
+    tree = ast.parse(open(os.path.join(repo, 'static_frame/core/index_level.py')).read())
+    n = 0
+    for cls in [c for c in tree.body if isinstance(c, ast.ClassDef) and c.name == 'IndexLevelGO']:
+        for fn in [f for f in cls.body if isinstance(f, ast.FunctionDef) and f.name in ('append', 'extend')]:
+            q = f'index_level.py:IndexLevelGO.{fn.name}'
+            n += 1
+            if fn.name == 'extend':
+                last = fn.body[-1]
+                ob(f'{q}:length-reset', isinstance(last, ast.Assign) and ast.unparse(last) == 'self._length = None', f'last statement: {ast.unparse(last)[:60]}', q)
+                continue
+            # the closing reset loop
+            last = fn.body[-1]
+            ok_loop = (isinstance(last, ast.For) and isinstance(last.iter, ast.Name) and last.iter.id == 'edge_nodes' and isinstance(last.target, ast.Name)
+                       and len(last.body) == 1 and ast.unparse(last.body[0]) == f'{last.target.id}._length = None')
+            # refuted only when the resets that ARE there are recognisably narrower (single `X._length = None` assignments instead of the loop over every visited
+            # level); any other shape is undecided (a refactoring, not an alarm)
+            singles = [ast.unparse(x) for x in fn.body[-3:] if isinstance(x, ast.Assign) and ast.unparse(x).endswith('._length = None')]
+            ob(f'{q}:length-reset-over-all-visited-levels', ok_loop, f'last statement: {ast.unparse(last)[:90]}' + (f'; resets only {singles}' if singles else ''), q,
+               undecided=not ok_loop and not singles)
+            # the descent loop records every node it visits, unconditionally, before stepping down
+            descents = [l for l in fn.body if isinstance(l, ast.For) and any(isinstance(x, ast.Assign) and ast.unparse(x).startswith('node = node.targets[') for x in ast.walk(l))]
+            if len(descents) != 1:
+                ob(f'{q}:every-visited-level-recorded', False, f'{len(descents)} descent loops recognised', q, undecided=True)
+                continue
+            loop = descents[0]
+            first = loop.body[0]
+            rec = isinstance(first, ast.Assign) and len(first.targets) == 1 and isinstance(first.targets[0], ast.Subscript) and ast.unparse(first.targets[0].value) == 'edge_nodes' \
+                and ast.unparse(first.value) == 'node' and isinstance(loop.target, ast.Tuple) and ast.unparse(first.targets[0].slice) == ast.unparse(loop.target.elts[0])
+            ob(f'{q}:every-visited-level-recorded', rec, f'first statement of the descent loop: {ast.unparse(first)[:60]}', q)
+            # nothing else writes edge_nodes or rebinds it after the descent
+            others = [x for x in ast.walk(fn) if isinstance(x, ast.Assign) and any(isinstance(t_, ast.Subscript) and ast.unparse(t_.value) == 'edge_nodes' for t_ in x.targets) and x is not first]
+            rebinds = [x for x in ast.walk(fn) if isinstance(x, ast.Assign) and any(isinstance(t_, ast.Name) and t_.id == 'edge_nodes' for t_ in x.targets)]
+            ob(f'{q}:visited-levels-not-overwritten', not others and len(rebinds) == 1, f'{len(others)} other stores into edge_nodes, {len(rebinds)} bindings of edge_nodes', q)
+    rep = dict(name=task['name'], status='ok' if n == 2 else 'checker-fault', items=items, failures=failures, evaluations=0, distinct=0, rule='',
+               samples=[dict(obligation=i['name'], verdict=i['verdict']) for i in items[:3]], trusted=[], assumptions=[], wall_s=round(time.time() - t0, 2))
+    if n != 2:
+        rep['detail'] = 'IndexLevelGO.append / extend not found: the generator no longer matches the source layout'
+    return rep
